@@ -100,6 +100,7 @@ func main() {
 	timeFiles := map[*ast.File]bool{}
 	runtimeFiles := map[*ast.File]bool{}
 	randFiles := map[*ast.File]string{}
+	selBlocks := map[*ast.BlockStmt]*ast.SwitchStmt{}
 	for _, p := range pkgs {
 		if !strings.HasPrefix(p.PkgPath, module) || p.PkgPath == simrtPath || strings.HasPrefix(p.PkgPath, simrtPath+"/") {
 			continue
@@ -176,7 +177,12 @@ func main() {
 			astutil.Apply(f, nil, func(c *astutil.Cursor) bool {
 				switch n := c.Node().(type) {
 				case *ast.SelectStmt:
-					die("%s: select statements are not supported by the channel seam", fname)
+					blk, sw := rewriteSelect(n, fname)
+					selBlocks[blk] = sw
+					c.Replace(blk)
+					needSimrt, changed = true, true
+					nChan++
+					return true
 				case *ast.GoStmt:
 					c.Replace(rewriteGo(p.TypesInfo, n))
 					needSimrt, changed = true, true
@@ -213,6 +219,12 @@ func main() {
 					}
 					return true
 				case *ast.LabeledStmt:
+					if blk, ok := n.Stmt.(*ast.BlockStmt); ok && selBlocks[blk] != nil {
+						// `L: select {…}`: the label has to stay on a statement `break L` may name
+						blk.List[len(blk.List)-1] = &ast.LabeledStmt{Label: n.Label, Stmt: selBlocks[blk]}
+						c.Replace(blk)
+						return true
+					}
 					if rs, ok := isChanRange(n.Stmt); ok {
 						nChan++
 						needSimrt, changed = true, true
@@ -581,6 +593,111 @@ func fixRecv2(e ast.Expr) {
 }
 
 var goCounter int
+var selCounter int
+
+// simrtCall reports whether e is a call of __simrt.<one of names> and returns it.
+func simrtCall(e ast.Expr, names ...string) (*ast.CallExpr, string) {
+	for {
+		p, ok := e.(*ast.ParenExpr)
+		if !ok {
+			break
+		}
+		e = p.X
+	}
+	ce, ok := e.(*ast.CallExpr)
+	if !ok {
+		return nil, ""
+	}
+	sel, ok := ce.Fun.(*ast.SelectorExpr)
+	if !ok {
+		return nil, ""
+	}
+	x, ok := sel.X.(*ast.Ident)
+	if !ok || x.Name != "__simrt" {
+		return nil, ""
+	}
+	for _, n := range names {
+		if sel.Sel.Name == n {
+			return ce, n
+		}
+	}
+	return nil, ""
+}
+
+// rewriteSelect turns a select statement (whose communication clauses have already
+// been rewritten into __simrt.ChanSend / ChanRecv / ChanRecv2 calls, post-order) into
+//
+//	{ __sNc0 := a; __sNc1 := b; __sNv1 := x
+//	  switch __simrt.SelectReady(hasDefault, __simrt.RecvCase(__sNc0), __simrt.SendCase(__sNc1)) {
+//	  case 0: v := __simrt.ChanRecvNow(__sNc0); …
+//	  case 1: __simrt.ChanSendNow(__sNc1, __sNv1); …
+//	  default: … } }
+//
+// Channel operands and values to send are evaluated once, in source order, before
+// the choice, as Go does.
+func rewriteSelect(s *ast.SelectStmt, fname string) (*ast.BlockStmt, *ast.SwitchStmt) {
+	selCounter++
+	pfx := "__s" + strconv.Itoa(selCounter)
+	simSel := func(name string) ast.Expr {
+		return &ast.SelectorExpr{X: ast.NewIdent("__simrt"), Sel: ast.NewIdent(name)}
+	}
+	var pre []ast.Stmt
+	var cases []ast.Expr
+	var clauses []ast.Stmt
+	hasDefault := false
+	idx := 0
+	define := func(name string, e ast.Expr) *ast.Ident {
+		id := ast.NewIdent(name)
+		pre = append(pre, &ast.AssignStmt{Lhs: []ast.Expr{id}, Tok: token.DEFINE, Rhs: []ast.Expr{e}})
+		return id
+	}
+	for _, st := range s.Body.List {
+		cc := st.(*ast.CommClause)
+		if cc.Comm == nil {
+			hasDefault = true
+			clauses = append(clauses, &ast.CaseClause{Body: cc.Body})
+			continue
+		}
+		var call *ast.CallExpr
+		var kind string
+		switch c := cc.Comm.(type) {
+		case *ast.ExprStmt:
+			call, kind = simrtCall(c.X, "ChanSend", "ChanRecv")
+		case *ast.AssignStmt:
+			if len(c.Rhs) == 1 {
+				call, kind = simrtCall(c.Rhs[0], "ChanRecv", "ChanRecv2")
+			}
+		}
+		if call == nil {
+			die("%s: a select clause simprep cannot rewrite", fname)
+		}
+		ch := define(pfx+"c"+strconv.Itoa(idx), call.Args[0])
+		call.Args[0] = ch
+		sel := call.Fun.(*ast.SelectorExpr)
+		if kind == "ChanSend" {
+			v := define(pfx+"v"+strconv.Itoa(idx), call.Args[1])
+			call.Args[1] = v
+			cases = append(cases, &ast.CallExpr{Fun: simSel("SendCase"), Args: []ast.Expr{ast.NewIdent(ch.Name)}})
+		} else {
+			cases = append(cases, &ast.CallExpr{Fun: simSel("RecvCase"), Args: []ast.Expr{ast.NewIdent(ch.Name)}})
+		}
+		sel.Sel = ast.NewIdent(kind + "Now")
+		body := append([]ast.Stmt{cc.Comm}, cc.Body...)
+		clauses = append(clauses, &ast.CaseClause{
+			List: []ast.Expr{&ast.BasicLit{Kind: token.INT, Value: strconv.Itoa(idx)}},
+			Body: body,
+		})
+		idx++
+	}
+	hd := "false"
+	if hasDefault {
+		hd = "true"
+	}
+	tag := &ast.CallExpr{Fun: simSel("SelectReady"), Args: append([]ast.Expr{ast.NewIdent(hd)}, cases...)}
+	sw := &ast.SwitchStmt{Tag: tag, Body: &ast.BlockStmt{List: clauses}}
+	blk := &ast.BlockStmt{List: append(pre, sw)}
+	return blk, sw
+}
 
 // rewriteGo turns `go f(a, b)` into
 //
